@@ -91,8 +91,14 @@ func C03Location(c *Ctx) {
 		if nhang > 3 {
 			return
 		}
-		for _, tail := range [][]byte{tailA, tailB, tailC} {
-			if a2 := LocParse(kind, body, tail); a2 != ans {
+		for ti, tail := range [][]byte{tailA, tailB, tailC} {
+			var a2 string
+			if (nseq+ti)%12 == 0 { // one in twelve also as a correspondence line for the spare-capacity model
+				a2 = c.Do("c03lt "+kind+" "+Hx(body)+" "+Hx(tail), len(body) >= minLen[kind])
+			} else {
+				a2 = RunOp("c03lt " + kind + " " + Hx(body) + " " + Hx(tail))
+			}
+			if a2 != ans {
 				c.Violate(Violation{Signature: "C03/location-tail-" + kind, What: "the outcome depends on bytes behind the slice",
 					Input: req + " " + Hx(tail), Observed: a2, Required: ans + "   (answer with exact capacity)"})
 			}
@@ -368,6 +374,8 @@ func c03Ext(c *Ctx, tailA, tailB []byte) {
 			var a2 string
 			if kind == "66" { // the model of 0x66 has the tail as an input
 				a2 = c.Do(base+" "+Hx(tail), true)
+			} else if i == 3 && len(content)%4 == 0 { // the spare-capacity model of the other handlers (ext_cap)
+				a2 = c.Do("c03et"+base[3:]+" "+Hx(tail), true)
 			} else {
 				a2 = RunOp(base + " " + Hx(tail))
 			}
